@@ -875,7 +875,7 @@ func main() {
 	}
 	// conditions, returns and go-statement guards of selected functions (closures included), in source order
 	{
-		selFns := []string{"Connection.getReconnectChanLocked", "Connection.checkForRetry", "Connection.isConnectedLocked",
+		selFns := []string{"receiveHandler.receiveCancel", "Connection.getReconnectChanLocked", "Connection.checkForRetry", "Connection.isConnectedLocked",
 			"Connection.waitForConnection", "Connection.doReconnect", "Connection.DoCommand", "Connection.connect",
 			"Connection.Shutdown", "ConnectionTransportTLS.Dial",
 			"CancellableTimer.Wait", "CancellableTimer.StartRandom", "CancellableTimer.StartConstant", "CancellableTimer.FireNow",
